@@ -164,24 +164,68 @@ theorem powerLevelsFromEvent_error {e v} (h : powerLevelsFromEvent e = .error v)
         · exact Or.inr (Or.inr h)
       · cases h; exact Or.inr (Or.inr ⟨_, rfl⟩)
 
-theorem power_levels_eq (c : Ctx) (p : Provider) (hf : Fresh p c) (e : Event) (row : VGen.VersionRow) (sv : SpecVersion)
-    (hrow : e.row = some row) (hri : RowIs row sv)
+/-- **`powerLevelsErr` is set exactly when the rules cannot read the power-levels auth event**, and then holds an
+    ordinary error -/
+theorem plErr_spec {p : Provider} {c : Ctx} (hf : Fresh p c) :
+    c.plErr.isSome = plUnusable lib p ∧ ∀ v, c.plErr = some v → v = .notAllowed ∨ v = .err := by
+  have h1 := hf.plInfo
+  rw [hf.plErr]
+  unfold plErrOf plUnusable
+  unfold Auth.plInfo at h1
+  cases hp : p.powerLevels with
+  | none => exact ⟨rfl, fun v hv => by cases hv⟩
+  | some ev =>
+    rw [hp] at h1
+    simp only at h1 ⊢
+    unfold plAuthEventUnusable
+    cases hpl : powerLevelsFromEvent ev with
+    | ok pl =>
+      refine ⟨?_, fun v hv => by cases hv⟩
+      cases hrow : ev.row with
+      | none =>
+        unfold powerLevelsFromEvent at hpl
+        rw [hrow] at hpl
+        cases hpl
+      | some row =>
+        obtain ⟨sv, hsv, hri⟩ := rowIs_of (ver := ev.ver) (row := row) hrow
+        rw [hsv]
+        simp only [newPowerLevels_eq hrow hri, hpl, Option.isSome_none, Option.isNone_some]
+    | error v =>
+      rw [hpl] at h1
+      rcases powerLevelsFromEvent_error hpl with rfl | rfl | ⟨w, rfl⟩
+      · refine ⟨?_, fun v hv => by cases hv; exact Or.inl rfl⟩
+        cases hrow : ev.row with
+        | none => rw [row_none_spec (ver := ev.ver) hrow]; rfl
+        | some row =>
+          obtain ⟨sv, hsv, hri⟩ := rowIs_of (ver := ev.ver) (row := row) hrow
+          rw [hsv]
+          simp only [newPowerLevels_eq hrow hri, hpl, Option.isSome_some, Option.isNone_none]
+      · refine ⟨?_, fun v hv => by cases hv; exact Or.inr rfl⟩
+        cases hrow : ev.row with
+        | none => rw [row_none_spec (ver := ev.ver) hrow]; rfl
+        | some row =>
+          obtain ⟨sv, hsv, hri⟩ := rowIs_of (ver := ev.ver) (row := row) hrow
+          rw [hsv]
+          simp only [newPowerLevels_eq hrow hri, hpl, Option.isSome_some, Option.isNone_none]
+      · simp at h1
+
+theorem power_levels_eq (c : Ctx) (p : Provider) (hf : Fresh p c) (he : c.plErr = none) (e : Event) (row : VGen.VersionRow)
+    (sv : SpecVersion) (hrow : e.row = some row) (hri : RowIs row sv)
     (hs : (parseUserID? e.sender).isSome) (hr : e.roomID ≠ []) (hm : isUnmodelled (memberFromProvider p e.sender) = false)
     (hpl : (match powerLevelsFromEvent e with
             | .ok pl => pl.users.all (fun kv => (parseUserID? kv.1).isSome)
             | .error v => !isUnmodelled (.error v : R Unit)) = true) :
     accepts (c.powerLevelsEventAllowed e) = some (rulePowerLevels lib c p sv e) := by
   rw [pl_prefix, accepts_bind (default_eq c p hf e hs hr hm)]
-  unfold rulePowerLevels newPowerLevels
+  unfold rulePowerLevels
+  rw [newPowerLevels_eq hrow hri]
   cases hrc : ruleCommon lib c p e with
   | false => simp
   | true =>
     have hce := common_createPresent hrc
-    have hd15 : lib.d15_pythonInt = true := rfl
     have hd3 : lib.d3_effectiveValues = true := rfl
     have hd4 : lib.d4_eventEntryDefault = true := rfl
-    have hd11 : lib.d11_notificationsGE = true := rfl
-    simp only [if_true, Bool.true_and, hd15]
+    simp only [if_true, Bool.true_and]
     cases hnew : powerLevelsFromEvent e with
     | error v =>
       rw [hnew] at hpl
@@ -199,7 +243,7 @@ theorem power_levels_eq (c : Ctx) (p : Provider) (hf : Fresh p c) (e : Event) (r
         have := List.all_eq_true.mp hpl kv hkv
         cases hq : parseUserID? kv.1 <;> simp_all
       simp only [ok_bind, hnone, Bool.false_eq_true, if_false, userKeys_eq new hpl, userPowerLevel_eq c _ hce,
-        ruleLevelChanges, ruleNotifications, hd3, hd4, hd11, if_true, Bool.not_true, Bool.false_and, Bool.false_or]
+        ruleLevelChanges, ruleNotifications_eq, ← notifLevel_eq hf hce he, hd3, hd4, if_true, Bool.not_true, Bool.false_and, Bool.false_or]
       cases hbad : (new.users.any fun kv => parseUserID? kv.fst == some none) with
       | true => simp
       | false =>
@@ -209,7 +253,7 @@ theorem power_levels_eq (c : Ctx) (p : Provider) (hf : Fresh p c) (e : Event) (r
         | true =>
           simp only [Bool.not_true, Bool.false_eq_true, if_false, Bool.true_and]
           rw [accepts_bind (checkPowerLevelEvent_eq c p hf e row sv hrow hri hce c.pl new)]
-          cases hn : (!sv.notifications || checkNotificationLevels e.sender c.pl new) <;>
+          cases hn : (!sv.notifications || checkNotificationLevels (notifLevel c sv.creators c.pl e.sender) c.pl new) <;>
           cases hcr : (!sv.creators || ruleNoCreatorInUsers c new) <;>
           cases hu : checkUserLevels (powerOf lib c e.sender) e.sender c.pl new <;> simp
 
